@@ -14,7 +14,7 @@ git apply "$sd/patch.diff" || { echo "RESULT $sd: PATCH DOES NOT APPLY"; exit 1;
 go build ./... || { echo "RESULT $sd: BUILD FAILS"; exit 1; }
 go test -vet=off -count=1 -run "^TestSeeded" ./$pkg/ > /tmp/vs_patched.$$ 2>&1; patched=$?
 rm "$pkg/zz_seeded_demo_test.go"
-go test -vet=off -count=1 -timeout 25m ./... > /tmp/vs_suite.$$ 2>&1; suite=$?
+go test -vet=off -count=1 -timeout 90m ./... > /tmp/vs_suite.$$ 2>&1; suite=$?
 echo "RESULT $sd: demo_clean_exit=$clean demo_patched_exit=$patched suite_with_patch_exit=$suite tests=$(grep -c 'func TestSeeded' $sd/demo_test.go) first=$name"
 if [ $clean -ne 0 ]; then tail -5 /tmp/vs_clean.$$; fi
 if [ $patched -eq 0 ]; then echo "demo did not fail with patch"; fi
